@@ -1,0 +1,6 @@
+//go:build !verif
+
+package core
+
+// headerBatchCount is the number of header hashes per stored page.
+const headerBatchCount = 2000
